@@ -804,7 +804,7 @@ func ruleR32_3(c *Check) {
 		"ExpiresAt": func(e ast.Expr) bool { return w.fieldOf(e) == w.Field("badger.Entry.ExpiresAt") },
 	}
 	got := map[string]bool{}
-	f.walk(func(n ast.Node) bool {
+	f.walkInl(func(_ *Fn, n ast.Node) bool {
 		cl, ok := n.(*ast.CompositeLit)
 		if !ok || !isNamedType(w.TypeOf(cl), "KV") {
 			return true
